@@ -41,6 +41,7 @@ import Scc.Fun.MainCall
 import Scc.Props.C14Generic
 import Scc.Pipeline
 import Scc.Pipeline.Links
+import Scc.Props.C14RVFinal
 
 open Scc
 
@@ -153,6 +154,15 @@ def dispatch (line : String) : IO String := do
     | "unique" => pure (Scc.Core.runLineUniqueCheck text)
     | "ax" => pure (Scc.AxCut.Named.checkLine text)
     | "lin" => pure (linCheckLine text)
+    | "rvplainnames" =>
+      -- the RV validator identifies the clause labels of a table by a string prefix: claimed only for names
+      -- without `_<digit>` segments (decidable `C14RV_plainNames`, Props/C14RVFinal.lean; witness `C14RV_falseAlarm`)
+      match Sexp.parse text with
+      | none => pure "ERR sexp"
+      | some sx =>
+        match AxCut.readProg (text.length + 10) sx with
+        | none => pure "ERR read"
+        | some p => pure ("OK " ++ toString (Scc.RV.C14RV_plainNames p))
     | "labelsafe" =>
       match Sexp.parse text with
       | none => pure "ERR sexp"
